@@ -44,6 +44,8 @@ def children(v):
                     out.append((("isrc", i_), x_))
         elif v.kind in ("slice", "chunks") and isinstance(v.src, VSlice):
             out.append((("isl",), v.src))
+        if v.kind == "successors":
+            out.append((("ist",), v.items))       # the pending Option<T>
     return out
 
 
@@ -86,6 +88,8 @@ def with_child(v, key, nv):
         src = list(v.src)
         src[key[1]] = nv
         return VIter(v.kind, v.items, v.pos, tuple(src), v.extra)
+    if isinstance(v, VIter) and k == "ist":
+        return VIter(v.kind, nv, v.pos, v.src, v.extra)
     if isinstance(v, VIter) and k == "isl":
         return VIter(v.kind, v.items, v.pos, nv, v.extra)
     if isinstance(v, VIter) and k == "ipos":
